@@ -48,7 +48,8 @@ def run(ck, ctx):
         declared = {"tauLorentz": Un.PURE, "tauBeta": Un.PURE, "showerEnergy": Un.HPEV}
         for k, want in declared.items():
             u = uf.of(out[k])
-            ok = Un.definite(u) and Un.compatible(u, want) and u.ang is None
+            # a bare literal combined with pure numbers only (1.0 / gamma**2) is itself a pure number
+            ok = (Un.definite(u) and Un.compatible(u, want) and u.ang is None) or (u is Un.POLY and want is Un.PURE)
             ck.ob("R07.1", f"{k} has unit {want!r}", ok, out[k], func,
                   f"derived unit: {u!r}" + ("" if ok else f" (expected {want!r}; e.g. only 1e8 converts GeV "
                                                        "to 100 PeV, gamma is energy over mass)"))
